@@ -72,9 +72,15 @@ type result struct {
 	Micros   int64    `json:"us"`
 }
 
-const caseLimit = 60 * time.Second
+var caseLimit = 120 * time.Second
 
 var trace = os.Getenv("C40_TRACE") != ""
+
+func init() {
+	if d, err := time.ParseDuration(os.Getenv("C40_LIMIT")); err == nil && d > 0 {
+		caseLimit = d
+	}
+}
 
 // ---- worker --------------------------------------------------------------------------
 
@@ -117,9 +123,9 @@ func workerMain() {
 	{
 		probe := request{Method: "GET", Target: lit(selfTestPath)}
 		a := srv.roundTrip(probe.wire(), caseLimit)
-		site, _ := panicSite(a.Obs.Stack)
+		site, frames := panicSite(a.Obs.Stack)
 
-		if a.Obs.Panic == "" || !strings.Contains(a.Obs.Panic, "index out of range") || !strings.Contains(site, "newWorld") {
+		if a.Obs.Panic == "" || !strings.Contains(a.Obs.Panic, "index out of range") || len(frames) == 0 || !strings.Contains(frames[0], "newWorld") {
 			_ = enc.Encode(result{Seq: -1, Fatal: fmt.Sprintf("self-test failed: a panicking handler was not observed (status %d, panic %q, site %q)", a.Status, a.Obs.Panic, site)})
 
 			os.Exit(2)
@@ -178,6 +184,10 @@ func runCase(w *world, srv *server, k *kase) result {
 		if a.Err != "" && a.Status == 0 {
 			if strings.Contains(a.Err, "timeout") || strings.Contains(a.Err, "deadline") {
 				res.Hung = true
+
+				if trace {
+					_ = pprof.Lookup("goroutine").WriteTo(os.Stderr, 1)
+				}
 
 				return res
 			}
@@ -799,6 +809,10 @@ func (v *verdict) add(o outcome) {
 	}
 
 	if res.Panic != "" {
+		if trace {
+			fmt.Fprintf(os.Stderr, "PANIC %s as %s (%s) [%s] at %s: %s :: %s\n", k.Route, k.Ident, k.Loggers, strings.Join(devKinds(k.Devs), "+"), res.Site, res.Panic, k.Req.show())
+		}
+
 		if len(v.hits) < 200000 {
 			v.hits = append(v.hits, hit{k: k, res: res})
 		} else {
